@@ -14,6 +14,14 @@ HOOKS = {
     "c3554ac30cec": "HSonRq", "a04fbf003fd0": "HContribSecurity", "4acf3a3fb9eb": "HTax1099R", "e92888967f26": "HTax1099Misc",
     "235cc0e977df": "HOfx",
 }
+# the hook / rename each class had when the model was last validated against the source: used (with a recorded problem, i.e. fail closed)
+# when a body is no longer recognised, so that the regenerated model still states the constraint as validated and the search for a
+# failing input can compare it with what the changed code does
+HOOK_BY_CLASS = {"MSGSETCORE": "HAtLeastOne", "TAX1099MSGSETV1": "HAtLeastOne", "SONRQ": "HSonRq", "MFACHALLENGERS": "HAtLeastOne", "EXTDPMT": "HExtdPmt",
+                 "EXTDPAYEE": "HExtdPayee", "CONTRIBSECURITY": "HContribSecurity", "CONTRIBINFO": "HAtLeastOne", "ACCTINFO": "HAcctInfo",
+                 "TAX1099MISC_V100": "HTax1099Misc", "TAX1099R_V100": "HTax1099R", "TAX1099RS": "HTax1099Rs", "TAX1099MSGSRQV1": "HAtLeastOne",
+                 "TAX1099MSGSRSV1": "HAtLeastOne", "MSGSETLIST": "HAtLeastOne", "OFX": "HOfx"}
+RENAME_BY_CLASS = {"MAIL": ("FROM", "FRM"), "MFINFO": ("YIELD", "YLD"), "STOCKINFO": ("YIELD", "YLD")}
 RENAMES = {  # (groom hash, ungroom hash) -> (wire tag, python tag)
     ("9657e103a07d", "f4a5a61babcf"): ("FROM", "FRM"),
     ("66d59c2e5fcf", "3c9351d2d1f9"): ("YIELD", "YLD"),
@@ -23,6 +31,13 @@ RENAMES = {  # (groom hash, ungroom hash) -> (wire tag, python tag)
 IGNORED_KINDS = ("property",)
 IGNORED_NAMES = ("__repr__", "__module__", "__doc__", "__qualname__", "__annotations__", "__firstlineno__", "__static_attributes__",
                  "__dict__", "__weakref__", "optionalMutexes", "requiredMutexes", "__orig_bases__", "__parameters__")
+BASE_PINS = {"Aggregate.__init__": "072ba5844858", "Aggregate.validate_args": "fa1a7444504d", "Aggregate._apply_args": "2dc68bc9bb7c",
+             "Aggregate._apply_residual_kwargs": "33b91916535f", "Aggregate.from_etree": "61e75e3c821c", "Aggregate._convert": "ce8bb31ab7da",
+             "Aggregate.groom": "7444b1283e1c", "Aggregate.to_etree": "b74f0e2680c2", "Aggregate._listAppend": "e84bc2091ac6",
+             "Aggregate.ungroom": "194cb3d5f0f2", "Aggregate._superdict": "4116543588f8", "Aggregate._filter_attrs": "972a1741be29",
+             "Aggregate.spec": "5a9af2516416", "Aggregate.spec_no_listaggregates": "d69742976d2b", "Aggregate.elements": "67ea06e67951",
+             "Aggregate.subaggregates": "ebd731df4b79", "Aggregate.unsupported": "6572f54b9b2b", "Aggregate.listaggregates": "0a024b86de20",
+             "Aggregate.listelements": "82e90e17f0e3", "utils.classproperty": "08f166aafc16"}
 ELEMENTLIST_PINS = {"listaggregates": "6a698cd5608b", "_apply_args": "fe3eb94a3963", "_listAppend": "3a39c5134994"}
 
 
@@ -128,6 +143,7 @@ def extract():
                     hook = HOOKS[h]
                 else:
                     problems.append("%s: validate_args override with unknown body (hash %s)" % (where, h))
+                    hook = HOOK_BY_CLASS.get(c.__name__)
             elif k == "groom":
                 groom_h = ast_hash(v)
             elif k == "ungroom":
@@ -139,6 +155,7 @@ def extract():
                 rename = RENAMES[(groom_h, ungroom_h)]
             else:
                 problems.append("%s: groom/ungroom override with unknown bodies (%s, %s)" % (c.__name__, groom_h, ungroom_h))
+                rename = RENAME_BY_CLASS.get(c.__name__)
         mro = [b.__name__ for b in c.__mro__ if b not in (object, list)]
         raw.append(dict(name=c.__name__, mro=mro, own=own,
                         optmx=[list(g) for g in c.__dict__["optionalMutexes"]] if "optionalMutexes" in c.__dict__ else None,
@@ -153,14 +170,25 @@ def extract():
         py.append(dict(name=c.__name__, spec=list(c.spec), optmx=[list(g) for g in c.optionalMutexes], reqmx=[list(g) for g in c.requiredMutexes],
                        listaggs=list(c.listaggregates), listelems=list(c.listelements), subs=list(c.subaggregates), unsup=list(c.unsupported),
                        elems=list(c.elements)))
-    # base-class machinery: watched (a change switches nothing off, it is recorded in the evidence)
+    # base-class machinery that Model/Schema.v and Model/Convert.v transcribe by hand: pinned by normalised-AST hash, FAIL CLOSED (a
+    # change to any of them means the transcription is no longer known to be the code: the checks that rest on it report it; when the
+    # model has been re-validated against the new source the pins are updated here).  __getattr__ is the lookup engine's (C16), recorded only.
     watched = {}
     for k in ("__init__", "validate_args", "_apply_args", "_apply_residual_kwargs", "from_etree", "_convert", "groom", "to_etree",
-              "_listAppend", "ungroom", "__getattr__"):
+              "_listAppend", "ungroom", "__getattr__", "_superdict", "_filter_attrs", "spec", "spec_no_listaggregates", "elements",
+              "subaggregates", "unsupported", "listaggregates", "listelements"):
         try:
             watched["Aggregate." + k] = ast_hash(Aggregate.__dict__[k])
         except Exception as e:
             problems.append("Aggregate.%s: cannot hash (%r)" % (k, e))
+    try:
+        import ofxtools.utils as _U
+        watched["utils.classproperty"] = hashlib.sha1(ast.dump(ast.parse(textwrap.dedent(inspect.getsource(_U.classproperty)))).encode()).hexdigest()[:12]
+    except Exception as e:
+        problems.append("utils.classproperty: cannot hash (%r)" % (e,))
+    for k, h in watched.items():
+        if k != "Aggregate.__getattr__" and BASE_PINS.get(k) != h:
+            problems.append("%s changed (hash %s, pinned %s): the hand transcription in Model/Schema.v / Model/Convert.v is no longer tied to the source" % (k, h, BASE_PINS.get(k)))
     return dict(raw=raw, py=py, etys=etys, enums=enums, problems=problems, watched=watched, n_agg=len(seen))
 
 
